@@ -1209,7 +1209,7 @@ const log10_2 = math.Ln2 / math.Ln10
 //     new(Decimal).SetInt(big.NewInt(1e40)).Prec() == 1
 //
 func (z *Decimal) SetInt(x *big.Int) *Decimal {
-	bits := uint32(x.BitLen())
+	bits := uint64(x.BitLen()) // (an integer may have 2**32 bits and more)
 	z.acc = Exact
 	z.neg = x.Sign() < 0
 	if bits == 0 {
@@ -1221,7 +1221,7 @@ func (z *Decimal) SetInt(x *big.Int) *Decimal {
 	}
 	// x != 0
 
-	prec := uint32(math.Ceil(float64(bits) * log10_2)) // off by 1 at most
+	prec := uint64(math.Ceil(float64(bits) * log10_2)) // off by 1 at most
 	// TODO(db47h) truncating x could be more efficient if z.prec > 0
 	// but small compared to the size of x.
 	z.mant = z.mant.make(int((prec + _DW - 1) / _DW)).setNat(x.Bits())
